@@ -97,12 +97,25 @@ PROPS = {
         assumptions=["single-threaded; even DD-block sizes only (Hnumber over-reads odd-sized DD blocks: a C12 finding); DFANclear() before each DFAN session (its directory cache is per file NAME)"],
     ),
     "C13": dict(
-        lean_props=["H4.Props.C13Atom"],
+        lean_props=["H4.Props.C13Atom", "H4.Props.C13Files"],
         engines=[
             E("atom", "e_atom.c", model="atom", quick=dict(cases=600), thorough=dict(cases=20000, seeds=4, chunk=200)),
+            E("ids", "e_ids.c", model="ids", quick=dict(cases=400, chunk=25), thorough=dict(cases=8000, seeds=4, chunk=100)),
         ],
-        trusted_base=["atom layer only (hdf/src/atom.c); error stack and allocation failure not modelled"],
+        trusted_base=["atom layer (hdf/src/atom.c) and the file table / access records of hfile.c (refcount, attach); error stack and allocation failure not modelled",
+                      "V/VS/GR/AN/SD/bit-id handles are not modelled: double release, use after release and foreign ids are checked on the implementation by engine ids (ASan as memory oracle; wrong-kind calls also in a forked child)"],
         assumptions=["single-threaded; fewer than 2^32 nested HAinit_group calls per group; fewer than 2^28 HAregister_atom calls per group and process"],
+    ),
+    "C14": dict(
+        lean_props=["H4.Props.C14"],
+        engines=[
+            E("ro", "e_ro.c", model="ro", wrap=True, quick=dict(cases=240, chunk=10), thorough=dict(cases=4000, seeds=4, chunk=50, timeout=1800)),
+        ],
+        trusted_base=["GNU ld --wrap interposition of fopen/fread/fwrite/fseek/fflush/fclose (harness/wrap.h): a write REQUEST is logged before stdio sees it",
+                      "V/VS/SD/GR/AN layers are not modelled: that they reach the file only through the mutating H operations is checked by engine ro (write log, byte comparison), not proved",
+                      "special-element internals (linked-block, external, compressed, chunked) beyond their access checks are not modelled (result `pass`)"],
+        assumptions=["the operating system lets the process open the file for update (no OS-level permission failure); DFACC_CREATE opens are outside the property",
+                     "access rights are per FILE RECORD (all file ids of one path share it): read-only = no live Hopen of that path ever asked for DFACC_WRITE"],
     ),
     "C16": dict(
         lean_props=["H4.Props.C16"],
